@@ -25,6 +25,7 @@ package main
 
 import (
 	"bufio"
+	"context"
 	"fmt"
 	"os"
 	"sort"
@@ -74,15 +75,19 @@ func (c repCase) String() string {
 }
 
 type repWorld struct {
-	nodes []*node // 0 observer, 1..3 publishers, 4 witness
-	ids   []peer.ID
-	seq   int
+	nodes  []*node // 0 observer, 1..3 publishers, 4 witness
+	ids    []peer.ID
+	seq    int
+	cancel context.CancelFunc
 }
 
+var repSeq int
+
 func newRepWorld() (*repWorld, error) {
-	w := &repWorld{}
+	wctx, cancel := context.WithCancel(ctx)
+	w := &repWorld{cancel: cancel}
 	for i := 0; i < nPub+2; i++ {
-		n, err := newNode(true)
+		n, err := newNode(wctx, true)
 		if err != nil {
 			return nil, err
 		}
@@ -124,6 +129,7 @@ func (w *repWorld) close() {
 	for _, n := range w.nodes {
 		n.h.Close()
 	}
+	w.cancel()
 }
 
 func pinset(cc *crdt.Consensus) ([]int, error) {
@@ -192,7 +198,8 @@ func testPin(n int) *api.Pin {
 // run executes one case; returns the observer's pinset or a reason why it is inconclusive.
 func (w *repWorld) run(c repCase, grace time.Duration) ([]int, string) {
 	w.seq++
-	name := fmt.Sprintf("c07rep-%d-%d", os.Getpid(), w.seq)
+	repSeq++
+	name := fmt.Sprintf("c07rep-%d-%d", os.Getpid(), repSeq)
 	var ccs []*crdt.Consensus
 	w.disconnect()
 	defer func() {
@@ -309,8 +316,8 @@ func genRep(r *common.Rng, k int) repCase {
 	case 3: // everyone trusted
 		return repCase{raw: []int{-1}, before: []int{10}, msgs: []msg{{2, 20, true}, {3, 10, false}}}
 	}
-	for n := r.Intn(4); n > 0; n-- {
-		if r.Chance(1, 12) {
+	for n := r.Intn(3); n > 0; n-- {
+		if r.Chance(1, 14) {
 			c.raw = append(c.raw, -1)
 		} else if r.Chance(1, 6) {
 			c.raw = append(c.raw, r.Intn(universe))
@@ -395,16 +402,30 @@ func runRep(out *common.Out, args common.Args) {
 	if args.Tier == "thorough" {
 		grace = 1200 * time.Millisecond
 	}
-	w, err := newRepWorld()
-	if err != nil {
-		out.Line("# inconclusive C07 rep (world setup: %v)", err)
-		return
-	}
-	defer w.close()
+	// fresh hosts for every case: a shut-down crdt component leaves subscriptions, bitswap and
+	// background loops behind on its host, and later cases on the same hosts lose updates
+	var w *repWorld
+	defer func() {
+		if w != nil {
+			w.close()
+		}
+	}()
 	do := func(c repCase) {
 		var s []int
 		why := ""
 		for attempt := 0; attempt < 2; attempt++ {
+			if w != nil { // fresh hosts for every case
+				w.close()
+				w = nil
+			}
+			if w == nil {
+				var err error
+				if w, err = newRepWorld(); err != nil {
+					w = nil
+					why = "world setup: " + err.Error()
+					continue
+				}
+			}
 			if s, why = w.run(c, grace); why == "" {
 				break
 			}
